@@ -41,6 +41,10 @@ func mergeProfile(r *rand.Rand) (gen.Profile, gen.DataCfg) {
 	p.SpreadEnum = r.Intn(3) == 0
 	p.SplitValue = 0.3
 	p.BareEntity = 0.3
+	// universes are drawn with these flags off and on alike (they consume randomness only when set)
+	if r.Intn(3) == 0 {
+		p.NodeNamedField, p.ScalarArgs = 0.4, true
+	}
 	return p, gen.DataCfg{Seed: 1, ListMax: 2, Pool: 3}
 }
 
